@@ -281,3 +281,46 @@ func zzH_C14_twice() {
 	}
 	verifReach("twice")
 }
+
+
+// a handshake that fails inside the relay while the client is on the tunnel (the server refuses the action, or its
+// configuration line is unreadable): both ends are told why over the tunnel, where they are listening — nothing is
+// typed into the server's terminal or printed on the client's — and the relay is back in standby
+func zzH_C14_failTunnel() {
+	r := zzRelay14()
+	r.relayStatus.Store(kRelayHandshaking)
+	tun := &tunnelRelay{clientBufChan: make(chan []byte, 10), serverBufChan: make(chan []byte, 10)}
+	r.tunnelRelay.Store(tun)
+	act := &transferAction{Lang: "go", Version: "1.1.8", Newline: "\n", Confirm: true, Protocol: 4, TunnelConnected: true}
+	act.SupportBinary = verifNondetBool()
+	act.SupportDirectory = verifNondetBool()
+	actJS, _ := json.Marshal(act)
+	r.stdinBuffer.addBuffer([]byte("#ACT:" + encodeString(string(actJS)) + "\n"))
+	if verifNondetBool() {
+		r.stdoutBuffer.addBuffer([]byte("#FAIL:" + encodeString("The client doesn't support transfer directory") + "\n"))
+	} else {
+		r.stdoutBuffer.addBuffer([]byte("#CFG:" + encodeString("not json") + "\n"))
+	}
+	r.handshake()
+	verifAssert(r.relayStatus.Load() == kRelayStandBy, "failed handshake leaves the relay out of standby")
+	toServer, toClient := 0, 0
+	for len(tun.clientBufChan) > 0 {
+		b := <-tun.clientBufChan
+		if zzHasPrefix14(b, "#FAIL:") {
+			toServer++
+		}
+	}
+	for len(tun.serverBufChan) > 0 {
+		b := <-tun.serverBufChan
+		if zzHasPrefix14(b, "#FAIL:") {
+			toClient++
+		}
+	}
+	verifAssert(toServer == 1, "the server was not told over the tunnel why the handshake failed")
+	verifAssert(toClient == 1, "the client was not told over the tunnel why the handshake failed")
+	verifAssert(len(r.osStdinChan) == 0, "something was typed into the server's terminal although the tunnel is in use")
+	verifAssert(len(r.osStdoutChan) == 0 && len(r.bypassTmuxChan) == 0, "something was printed on the client's terminal although the tunnel is in use")
+	verifReach("fail-over-tunnel")
+}
+
+func zzHasPrefix14(b []byte, p string) bool { return len(b) >= len(p) && string(b[:len(p)]) == p }
